@@ -188,7 +188,9 @@ class LimitsMonitor(Monitor):
             if k == "ConstantWaveform":
                 ok = np.all(a1 == a0[0])
             elif k == "RampWaveform":
-                ok = np.isclose(a1[0], a0[0], rtol=1e-12, atol=1e-12) and np.isclose(a1[-1], a0[-1], rtol=1e-12, atol=1e-12)
+                # (a 1-ns ramp only shows its start value; its stop value appears once it is lengthened)
+                ok = np.isclose(a1[0], a0[0], rtol=1e-12, atol=1e-12) and (
+                    dreq == 1 or np.isclose(a1[-1], a0[-1], rtol=1e-12, atol=1e-12))
             elif k in ("BlackmanWaveform", "KaiserWaveform"):
                 ok = np.isclose(np.sum(a1), np.sum(a0), rtol=1e-9, atol=1e-12)
             elif k == "InterpolatedWaveform":
